@@ -147,9 +147,9 @@ func c06EnvNeutral(r *gtfs.Realtime) string {
 
 const c06Repeats = 8
 
-// c06AltLocals are process time zones under which every C06 case is parsed once more: names that coincide with configured
-// zones or with abbreviations, at offsets of their own.
-var c06AltLocals = []string{"PST|-28800", "UTC|20700", "America/New_York|3600", "EDT|-14400"}
+// c06AltEnvs are process environments under which every C06 case is parsed once more: time zones whose names coincide with
+// configured zones or with abbreviations, at offsets of their own, and other numbers of processors.
+var c06AltEnvs = []vt.Env{{Local: "PST|-28800"}, {Local: "UTC|20700"}, {Local: "America/New_York|3600", Procs: 3}, {Local: "EDT|-14400"}, {Procs: 1}}
 
 func checkC06RT(c CaseC06RT) error {
 	if len(c.Msgs) == 0 {
@@ -184,15 +184,15 @@ func checkC06RT(c CaseC06RT) error {
 		return vt.Failf("ParseRealtime modified its input buffer")
 	}
 	// the same bytes and equivalent options under another process environment (time zone of the process)
-	for _, alt := range c06AltLocals {
-		vt.Env{Local: alt}.Apply()
+	for _, alt := range c06AltEnvs {
+		alt.Apply()
 		r, err := gtfs.ParseRealtime(target, c.Ext.options(c.Zone))
 		c.Env.Apply()
 		if err != nil {
-			return vt.FailSig("environment-dependent", "with the process time zone set to %q ParseRealtime rejects the message: %v", alt, err)
+			return vt.FailSig("environment-dependent", "under the process environment %+v ParseRealtime rejects the message: %v", alt, err)
 		}
 		if js := c06EnvNeutral(r); js != firstNeutral {
-			return vt.FailSig("environment-dependent", "extension %+v: with the process time zone set to %q the result differs: %s", c.Ext, alt, rgen.FirstDiff(js, firstNeutral))
+			return vt.FailSig("environment-dependent", "extension %+v: under the process environment %+v the result differs: %s", c.Ext, alt, rgen.FirstDiff(js, firstNeutral))
 		}
 	}
 	shared := c.Ext.options(c.Zone)
@@ -250,15 +250,15 @@ func checkC06Static(c CaseC06Static) error {
 	if !bytes.Equal(b, pristine) {
 		return vt.Failf("ParseStatic modified its input buffer")
 	}
-	for _, alt := range c06AltLocals {
-		vt.Env{Local: alt}.Apply()
+	for _, alt := range c06AltEnvs {
+		alt.Apply()
 		s, err := gtfs.ParseStatic(b, opts)
 		c.Env.Apply()
 		if err != nil {
-			return vt.FailSig("environment-dependent", "with the process time zone set to %q ParseStatic rejects the archive: %v", alt, err)
+			return vt.FailSig("environment-dependent", "under the process environment %+v ParseStatic rejects the archive: %v", alt, err)
 		}
 		if js := sgen.JS(sgen.Normalize(s)); js != first {
-			return vt.FailSig("environment-dependent", "with the process time zone set to %q the result differs: %s", alt, rgen.FirstDiff(js, first))
+			return vt.FailSig("environment-dependent", "under the process environment %+v the result differs: %s", alt, rgen.FirstDiff(js, first))
 		}
 	}
 	for _, h := range c.History {
@@ -563,4 +563,44 @@ func TestC06Bytes(t *testing.T) {
 		}
 		vt.Run(t, c06BytesRec, c, checkC06Bytes)
 	})
+}
+
+// TestC06Large: two large messages through one options object - an NYCT feed of 20003 entities parsed with stale filtering
+// (thousands of entities are skipped), then a feed of as many plain vehicle positions: the second parse must be what it is alone.
+func TestC06Large(t *testing.T) {
+	for _, n := range []int{20003, 70003} {
+		n := n
+		t.Run(fmt.Sprint(n), func(outer *testing.T) {
+			fail := ""
+			defer func() {
+				if fail != "" {
+					outer.Fatalf("%s", fail)
+				}
+			}()
+			rapid.Check(outer, func(t *rapid.T) {
+				zone := rapid.SampledFrom([]string{"", "America/New_York"}).Draw(t, "zone")
+				// n unassigned NYCT trips whose first stop time lies before the feed timestamp: every one of them is skipped
+				a := &rgen.Msg{Timestamp: rgen.P(uint64(1_900_000_000))}
+				for i := 0; i < n; i++ {
+					d := rgen.TripDesc{TripID: rgen.P(fmt.Sprintf("%06d_A..N%d", (i*7)%600000, i)), RouteID: rgen.P("A"), StartDate: rgen.P("20231114"),
+						Nyct: &rgen.NyctTrip{Direction: rgen.P(int32(1)), IsAssigned: rgen.P(false)}}
+					a.Entities = append(a.Entities, rgen.Entity{ID: fmt.Sprintf("t%d", i), TU: &rgen.TripUpdate{Trip: d,
+						STUs: []rgen.STU{{StopID: rgen.P("A01N"), Dep: &rgen.Event{Time: rgen.P(int64(1_600_000_000))}}}}})
+				}
+				b := &rgen.Msg{Timestamp: rgen.P(uint64(1_700_000_000))}
+				for i := 0; i < n; i++ {
+					b.Entities = append(b.Entities, rgen.Entity{ID: fmt.Sprintf("v%d", i), VP: &rgen.VehiclePos{Vehicle: &rgen.VehDesc{ID: rgen.P(fmt.Sprintf("V%d", i))}, StopID: rgen.P("S1")}})
+				}
+				c := CaseC06RT{Zone: zone, Ext: ExtSpec{Kind: "nycttrips", Trips: rgen.NyctTripsOpts{FilterStale: true, PreserveM: rapid.Bool().Draw(t, "preserveM")}}, Msgs: []*rgen.Msg{a, b}, Model: true}
+				c.Env = genEnv(t)
+				c06RTRec.Eval(fmt.Sprintf("large:two-messages-of>=%d-entities", n))
+				c06RTRec.NontrivialCase(vt.Fingerprint([]any{zone, n, c.Ext}), func() any {
+					return map[string]any{"zone": zone, "entities_each": n, "extension": c.Ext}
+				})
+				if msg := vt.Try(c06RTRec, c, checkC06RT); msg != "" && fail == "" {
+					fail = msg
+				}
+			})
+		})
+	}
 }
